@@ -2,9 +2,11 @@
 //! through the hook `emmylua_ls::verif_serve` on `lsp_server::Connection::memory()`.
 //!
 //! * one server instance per `Server::start`, any number of documents / requests;
-//! * a panic inside a spawned handler task produces no response (property C24): the process-wide panic hook
-//!   installed here records message + location, and `request` reports `Outcome::Panic` when the panic counter
-//!   moved and no response arrived, `Outcome::Timeout` when nothing happened at all;
+//! * a panic inside a spawned handler task produced no response before the C24 fix and an InternalError (-32603)
+//!   response after it: the process-wide panic hook installed here records message + location, and `request`
+//!   reports `Outcome::Panic` for an InternalError response or when the panic counter moved and no response
+//!   arrived, `Outcome::Timeout` when nothing happened at all;
+//! * the client capabilities always carry `workspace` (otherwise the server skips its whole initialisation);
 //! * server -> client requests (configuration, registerCapability, progress, applyEdit) are answered.
 #![allow(dead_code)]
 use emmylua_ls::{CmdArgs, Parser, verif_serve};
@@ -60,7 +62,7 @@ pub fn last_panic() -> String {
 pub enum Outcome {
     Ok(Value),
     Err(Value),
-    /// the handler task panicked (no response, panic hook fired)
+    /// the handler task panicked: no response, or (since the C24 fix) an InternalError response; panic hook fired
     Panic(String),
     /// no response and no panic within the timeout
     Timeout,
@@ -109,6 +111,12 @@ impl Server {
             std::fs::write(p, text).unwrap();
         }
         let root = format!("file://{}", dir.display());
+        // without `capabilities.workspace` the server's initialized handler returns before loading the configuration,
+        // the std library and the workspace files (`params.capabilities.workspace.as_ref()?`)
+        let mut client_caps = client_caps;
+        if client_caps.get("workspace").is_none() {
+            client_caps["workspace"] = json!({"configuration": true, "workspaceFolders": true});
+        }
         std::thread::spawn(move || {
             rt.block_on(async move {
                 let args = CmdArgs::parse_from(["emmylua_ls"]);
@@ -142,7 +150,7 @@ impl Server {
                     break;
                 }
             }
-            if t0.elapsed() > Duration::from_secs(90) {
+            if t0.elapsed() > Duration::from_secs(300) {
                 eprintln!("server warm-up failed: {:?}", r);
                 std::process::exit(3);
             }
@@ -210,6 +218,15 @@ impl Server {
                 Ok(Message::Response(r)) => {
                     if r.id == rid {
                         return match r.error {
+                            // since the C24 fix a handler panic is answered with InternalError (-32603, "internal error"):
+                            // the task crashed all the same
+                            Some(e) if e.code == -32603 => {
+                                if panic_count() > p0 {
+                                    Outcome::Panic(last_panic())
+                                } else {
+                                    Outcome::Panic(format!("InternalError response: {} @ ", e.message))
+                                }
+                            }
                             Some(e) => Outcome::Err(serde_json::to_value(e).unwrap_or(Value::Null)),
                             None => Outcome::Ok(r.result.unwrap_or(Value::Null)),
                         };
